@@ -77,7 +77,26 @@ fn err_kind(e: &InputPluginError) -> String {
         E::QueryFieldHasInvalidType(f, _) => format!("type {}", f.to_str()),
         E::UnexpectedQueryStructure(_) => "notobject".into(),
         E::JsonError { .. } => "json".into(),
-        E::InputPluginFailed(_) => "failed".into(),
+        // one variant, six causes: told apart by a key phrase of the message (a reordering of the tolerance /
+        // range / road-class checks would otherwise be invisible)
+        E::InputPluginFailed(m) => {
+            let sub = if m.contains("nearest vertex not found") {
+                "nocandidate"
+            } else if m.contains("exceeding the distance tolerance") {
+                "beyond"
+            } else if m.contains("not in range") || m.contains("empty linestring") {
+                "range"
+            } else if m.contains("Unable to apply EdgeRtree Input Plugin") {
+                "roadclassparse"
+            } else if m.contains("road class file missing edge") {
+                "roadclassmissing"
+            } else if m.contains("unable to match coordinate") {
+                "noedgematch"
+            } else {
+                "other"
+            };
+            format!("failed {}", sub)
+        }
         E::InternalError(_) => "internal".into(),
     }
 }
@@ -1501,6 +1520,11 @@ pub fn run(ctx: &mut Ctx) -> &'static str {
     }
     if let Some(idx) = ctx.begin() {
         vertex_case(ctx, idx, &files, Some(1), 0);
+    }
+    for k in 0..2 {
+        if let Some(idx) = ctx.begin() {
+            io::edge_builder_witness(ctx, idx, &files, k);
+        }
     }
     let n = ctx.n(4000, 80000);
     for i in 0..n {
